@@ -1,7 +1,14 @@
-"""Sidecar contracts for teneva/cross.py and utils._info_appr (properties C05, C06, C07)."""
+"""Sidecar contracts for teneva/cross.py and utils._info_appr (properties C05, C06, C07).
+
+Ghost state of the objective `f` (a logged callable, see `oracle`):
+  asked      total number of index rows handed to f so far
+  evaluated  total number of rows for which f returned values (not None)
+  ncalls     number of calls
+"""
+import ast as _ast
 import z3
 from ttvc.units import unit
-from ttvc.symex import VOpt, VStr, VRec, VSeq, VArr, VFunc, VTuple, NONE, Z, strcode
+from ttvc.symex import VOpt, VStr, VRec, VSeq, VArr, VFunc, VTuple, VRef, NONE, Z, strcode
 from ttvc import models as M, theory as T
 from contracts import spec as S
 
@@ -17,7 +24,7 @@ def info_appr_post(old, new, nswp, e, e_vld, ret):
     c_vld = z3.And(z3.Not(e_vld.isnone), old['e_vld'] >= 0, old['e_vld'] <= e_vld.val)
     c_e = z3.And(z3.Not(e.isnone), old['e'] >= 0, old['e'] <= e.val)
     c_n = z3.And(z3.Not(nswp.isnone), old['nswp'] >= nswp.val)
-    was_none = old['stop'].isnone
+    was_none = S.as_opt(old['stop']).isnone
     post = {
         'keeps-earlier-reason': z3.Implies(z3.Not(was_none), S.same_opt(new['stop'], old['stop'])),
         'e_vld-iff-validation-error-within-threshold':
@@ -55,10 +62,14 @@ def u_info_appr(U):
         new = p.heap[info.oid].fields
         ret = o.value
         for lbl, g in info_appr_post(old, new, nswp, e, e_vld, ret).items():
-            U.post(lbl, p.pc, g)
-        U.post('only-documented-reasons', p.pc + [old['stop'].isnone, z3.Not(S.as_opt(new['stop']).isnone)],
-               S.stop_in(new['stop'], ('e_vld', 'e', 'nswp')))
+            U.post(lbl, p, g)
+        U.post('only-documented-reasons', p, S.stop_in(new['stop'], ('e_vld', 'e', 'nswp')),
+               extra=[old['stop'].isnone, z3.Not(S.as_opt(new['stop']).isnone)])
         U.canary('canary-always-stops', p.pc + [old['stop'].isnone], z3.Not(S.as_opt(new['stop']).isnone))
+
+
+def _as_opt_arg(a):
+    return a if isinstance(a, VOpt) else VOpt(z3.BoolVal(a is NONE), Z(0) if a is NONE else a)
 
 
 def call_info_appr(ex, st, args, kwargs, node):
@@ -66,8 +77,11 @@ def call_info_appr(ex, st, args, kwargs, node):
     assume the postcondition proved by unit utils._info_appr."""
     info = st.deref(args[0])
     old = dict(info.fields)
-    nswp, e, e_vld = [a if isinstance(a, VOpt) else (VOpt(z3.BoolVal(a is NONE), Z(0) if a is NONE else a))
-                      for a in args[2:5]]
+    for k in ('stop', 'e', 'e_vld', 'nswp'):
+        if k not in old:
+            ex.oblige(st, 'call-pre', f'_info_appr: info[{k!r}] is set', False, node)
+            return NONE
+    nswp, e, e_vld = [_as_opt_arg(a) for a in args[2:5]]
     new = dict(old)
     new['stop'] = VOpt(ex.fresh_bool('stop_none'), VStr(ex.fresh_int('stop_str')))
     new['t'] = ex.fresh_real('t')
@@ -82,67 +96,290 @@ M.CALLEES['utils._info_appr'] = call_info_appr
 
 
 # ----------------------------------------------------------------------------------------------
-# cross._func_eval — budget / None checks around every objective call (C06), functional part (C05)
+# cross._func_eval — budget / None checks around every objective call (C06), cache accounting (C05)
 
 def oracle(ex_, st_, name='f'):
-    """The objective as a ghost-logged callable: `asked` = total number of rows handed to it."""
+    """The objective as a ghost-logged callable."""
     def h(ex, st, args, kwargs, node):
         I = st.deref(args[0])
         n = Z(I.shape[0])
         st.ghost['ncalls'] = st.ghost['ncalls'] + 1
         st.ghost['asked'] = st.ghost['asked'] + n
-        st.ghost['last_batch'] = I
         isnone = ex.fresh_bool('f_none')
         st.ghost['answers_none'] = isnone
+        st.ghost['evaluated'] = st.ghost['evaluated'] + z3.If(isnone, 0, n)
+        st.ghost['last_width'] = I.shape[1] if I.ndim == 2 else None
         return VOpt(isnone, VArr((n,), None, None))
     return VFunc(name, h)
 
 
-def func_eval_post(old, new, nI, g_old, g_new, ret_none):
+def fresh_ghost(st):
+    st.ghost.update(asked=z3.Int('asked0'), evaluated=z3.Int('evaluated0'), ncalls=z3.Int('ncalls0'))
+    return dict(st.ghost)
+
+
+def func_eval_post(old, new, nI, n_new, g_old, g_new, ret_none, with_cache):
+    """Postcondition of _func_eval for a batch of nI rows of which n_new are handed to the objective if it is consulted
+    (without cache n_new = nI; with a cache n_new = number of rows not yet in the cache).  Taken from C06: never more
+    than m indices in total, info['m'] = number of indices actually evaluated, every other request counted in
+    info['m_cache'], 'm' only when the next batch would exceed the budget, 'func' when the objective returned None,
+    counters change only after a successful call."""
+    fits = z3.Or(old['m_max'].isnone, old['m'] + n_new <= old['m_max'].val)
+    wanted = n_new > 0 if with_cache else z3.BoolVal(True)          # is there anything to ask?
     called = g_new['ncalls'] == g_old['ncalls'] + 1
-    fits = z3.Or(old['m_max'].isnone, old['m'] + nI <= old['m_max'].val)
-    ans_none = g_new.get('answers_none', z3.BoolVal(False))
-    ok = z3.And(called, z3.Not(ans_none))
+    none = g_new.get('answers_none', z3.BoolVal(False))
+    blocked = z3.And(wanted, z3.Not(fits))
+    success = z3.And(z3.Not(blocked), z3.Not(z3.And(called, none)))
     return {
-        'objective-consulted-iff-batch-fits-budget': called == fits,
+        'objective-consulted-iff-something-to-ask-and-it-fits-the-budget': called == z3.And(wanted, fits),
         'at-most-one-call': z3.Or(called, g_new['ncalls'] == g_old['ncalls']),
-        'stop-m-iff-not-consulted': S.stop_is(new['stop'], 'm') == z3.Not(called),
-        'stop-func-iff-objective-returned-None': S.stop_is(new['stop'], 'func') == z3.And(called, ans_none),
-        'no-stop-on-success': z3.Implies(ok, S.as_opt(new['stop']).isnone),
-        'counter-updated-only-after-success': new['m'] == z3.If(ok, old['m'] + nI, old['m']),
-        'result-None-iff-stopped': ret_none == z3.Not(S.as_opt(new['stop']).isnone),
-        'asked-grows-by-batch-iff-consulted': g_new['asked'] == z3.If(called, g_old['asked'] + nI, g_old['asked']),
-        'never-more-than-m-indices': z3.Implies(z3.Not(old['m_max'].isnone), g_new['asked'] <= old['m_max'].val),
-        'asked-equals-evaluated-while-running': z3.Implies(S.as_opt(new['stop']).isnone, g_new['asked'] == new['m']),
-        'frame': z3.And(new['m_cache'] == old['m_cache'], S.same_opt(new['m_max'], old['m_max']),
-                        new['nswp'] == old['nswp'], new['e'] == old['e'], new['e_vld'] == old['e_vld']),
+        'asked-grows-by-the-new-rows-iff-consulted': g_new['asked'] == g_old['asked'] + z3.If(called, n_new, 0),
+        'evaluated-grows-iff-answered': g_new['evaluated'] == g_old['evaluated'] + z3.If(z3.And(called, z3.Not(none)), n_new, 0),
+        'stop-m-when-budget-blocks': z3.Implies(blocked, S.stop_is(new['stop'], 'm')),
+        'stop-func-when-objective-returns-None': z3.Implies(z3.And(called, none), S.stop_is(new['stop'], 'func')),
+        'stop-unchanged-on-success': z3.Implies(success, S.same_opt(new['stop'], old['stop'])),
+        'evaluated-counter-only-after-success': new['m'] == old['m'] + z3.If(success, n_new, 0),
+        'cache-hit-counter': new['m_cache'] == old['m_cache'] + (z3.If(success, nI - n_new, 0) if with_cache else 0),
+        'result-None-iff-not-successful': ret_none == z3.Not(success),
+        'frame': z3.And(S.same_opt(new['m_max'], old['m_max']), new['nswp'] == old['nswp'], new['e'] == old['e'],
+                        new['e_vld'] == old['e_vld'], new['r'] == old['r']),
     }
 
 
-@unit('cross._func_eval.nocache', props=('C06', 'C05'))
-def u_func_eval(U):
+def func_eval_consequences(old, new, nI, g_old, g_new):
+    """What C06 states, derived from the postcondition under the caller's invariant asked = evaluated = info['m'] and
+    asked <= m_max: the budget is never exceeded and info['m'] keeps counting exactly the evaluated indices."""
+    return {
+        'never-more-than-m-indices-in-total': z3.Implies(z3.Not(old['m_max'].isnone), g_new['asked'] <= old['m_max'].val),
+        'info-m-equals-number-of-evaluated-indices': new['m'] == g_new['evaluated'],
+        'stop-m-only-when-nothing-was-asked':
+            z3.Implies(z3.And(S.stop_is(new['stop'], 'm'), z3.Not(S.stop_is(old['stop'], 'm'))),
+                       z3.And(z3.Not(old['m_max'].isnone), g_new['asked'] == g_old['asked'])),
+        'requests-are-evaluated-or-cached-on-success':
+            z3.Implies(z3.And(S.as_opt(old['stop']).isnone, S.as_opt(new['stop']).isnone),
+                       new['m'] + new['m_cache'] == old['m'] + old['m_cache'] + z3.If(new['m_cache'] == old['m_cache'],
+                                                                                      new['m'] - old['m'], nI)),
+    }
+
+
+def caller_invariant(f, g):
+    return [f['m'] >= 0, f['m_cache'] >= 0, g['asked'] == f['m'], g['evaluated'] == f['m'],
+            z3.Implies(z3.Not(f['m_max'].isnone), f['m'] <= f['m_max'].val)]
+
+
+def _func_eval_unit(U, with_cache):
     fn = U.func('cross', '_func_eval')
-    ex = U.executor(fn)
     st = U.state()
     info, old = S.info_record(st)
     nI, dI = z3.Int('nI'), z3.Int('dI')
     I = VArr((nI, dI), None, None, 'i')
-    st.ghost.update(asked=z3.Int('asked0'), ncalls=z3.Int('ncalls0'))
-    g_old = dict(st.ghost)
-    st.vars.update(f=oracle(ex, st), I=I, info=info, cache=NONE)
-    pre = [nI >= 0, dI >= 1, old['stop'].isnone, old['m'] >= 0, g_old['asked'] == old['m'],
-           z3.Implies(z3.Not(old['m_max'].isnone), old['m'] <= old['m_max'].val)]
+    g_old = fresh_ghost(st)
+    ncalls0 = g_old['ncalls']
+    cache = st.alloc(M.VMap('cache')) if with_cache else NONE
+
+    def body_end(ex_, s_, o_, j_):
+        # the loop that fills the cache runs only after the objective answered, once per new row
+        if s_.heap[cache.oid].writes > 0:
+            ex_.oblige(s_, 'post', 'cache-written-only-after-a-successful-call',
+                       z3.And(s_.ghost['ncalls'] == ncalls0 + 1, z3.Not(s_.ghost.get('answers_none', z3.BoolVal(True)))), None,
+                       assume=False)
+
+    loops = {0: {'inv': lambda ex_, s_, j_: [], 'body_end': body_end}} if with_cache else {}
+    ex = U.executor(fn, loops=loops)
+    st.vars.update(f=oracle(ex, st), I=I, info=info, cache=cache)
+    pre = [nI >= 0, dI >= 1] + caller_invariant(old, g_old)
     res = U.run(ex, st, pre=pre)
     U.cover('precondition-satisfiable', U.pre)
+    U.cover('reachable-with-a-reason-already-set', U.pre + [z3.Not(old['stop'].isnone)])
     for p, o in res:
         if o.kind != 'return':
-            U.post('no-exception', p.pc, False)
+            U.post('no-exception', p, False)
             continue
         new = p.heap[info.oid].fields
         ret_none = z3.BoolVal(o.value is NONE) if not isinstance(o.value, VOpt) else o.value.isnone
-        for lbl, g in func_eval_post(old, new, nI, g_old, p.ghost, ret_none).items():
-            U.post(lbl, p.pc, g)
+        if with_cache:
+            filt = p.ghost.get('filtered', [])
+            if len(filt) != 1:
+                raise M.ContractMismatch('_func_eval(cache): expected exactly one filtered comprehension (rows not in the cache)')
+            n_new = filt[0][1]
+            U.post('filter-ranges-over-the-requested-rows', p, filt[0][0] == nI)
+        else:
+            n_new = nI
+        for lbl, g in func_eval_post(old, new, nI, n_new, g_old, p.ghost, ret_none, with_cache).items():
+            U.post(lbl, p, g)
+        for lbl, g in func_eval_consequences(old, new, nI, g_old, p.ghost).items():
+            U.post(lbl, p, g)
         if o.value is not NONE:
             v = p.deref(o.value)
-            U.post('result-one-value-per-row', p.pc, Z(v.shape[0]) == nI if isinstance(v, VArr) and v.ndim == 1 else False)
-        U.canary('canary-always-consulted', p.pc, p.ghost['ncalls'] == g_old['ncalls'] + 1)
+            U.post('result-one-value-per-requested-row', p, Z(v.shape[0]) == nI if isinstance(v, VArr) and v.ndim == 1 else False)
+        U.canary('canary-always-consulted', p, p.ghost['ncalls'] == ncalls0 + 1)
+
+
+@unit('cross._func_eval.nocache', props=('C06', 'C05'))
+def u_func_eval(U):
+    _func_eval_unit(U, False)
+
+
+@unit('cross._func_eval.cache', props=('C06', 'C05'))
+def u_func_eval_cache(U):
+    _func_eval_unit(U, True)
+
+
+def _havoc_eval(ex, st, info, N, with_cache, node, who):
+    """Shared by the call-site contracts of _func_eval and _func: havoc the counters / the objective's log and assume
+    the postcondition proved by the units cross._func_eval.*"""
+    old = dict(info.fields)
+    g_old = dict(st.ghost)
+    for c in caller_invariant(old, g_old):
+        ex.oblige(st, 'call-pre', f'{who}: counters consistent (asked = evaluated = info[m] <= m_max)', c, node)
+    new = dict(old)
+    new['stop'] = VOpt(ex.fresh_bool('stop_none'), VStr(ex.fresh_int('stop_str')))
+    new['m'], new['m_cache'] = ex.fresh_int('m'), ex.fresh_int('m_cache')
+    for k in ('asked', 'evaluated', 'ncalls'):
+        st.ghost[k] = ex.fresh_int(k)
+    st.ghost['answers_none'] = ex.fresh_bool('f_none')
+    n_new = N
+    if with_cache:
+        n_new = ex.fresh_int('n_new')
+        st.assume(n_new >= 0, n_new <= N)
+    ret_none = ex.fresh_bool('ret_none')
+    for lbl, g in func_eval_post(old, new, N, n_new, g_old, st.ghost, ret_none, with_cache).items():
+        st.assume(g)
+    for lbl, g in func_eval_consequences(old, new, N, g_old, st.ghost).items():
+        st.assume(g)
+    info.fields.update(new)
+    st.ghost['last_request'] = dict(N=N, n_new=n_new, old=old, g_old=g_old, ret_none=ret_none)
+    return ret_none
+
+
+def call_func_eval(ex, st, args, kwargs, node):
+    """Call-site contract of _func_eval(f, I, info, cache)."""
+    I = st.deref(args[1])
+    info = st.deref(args[2])
+    cache = st.deref(args[3]) if len(args) > 3 else st.deref(kwargs.get('cache', NONE))
+    if isinstance(cache, VOpt):
+        raise M.Unsupported('_func_eval with a cache of unknown None-ness: split the contract case')
+    nI = Z(I.shape[0])
+    ret_none = _havoc_eval(ex, st, info, nI, cache is not NONE, node, '_func_eval')
+    st.ghost.setdefault('eval_calls', []).append(dict(I=I, nI=nI))
+    return VOpt(ret_none, VArr((nI,), None, None))
+
+
+M.CALLEES['cross._func_eval'] = call_func_eval
+
+
+# ----------------------------------------------------------------------------------------------
+# cross._func — assembly of the index batch (C06 domain / layout) around one _func_eval call
+
+AXF = T.axioms('mulI')
+
+
+def _func_unit(U, has_r, has_c):
+    fn = U.func('cross', '_func')
+    ex = U.executor(fn, axioms=AXF)
+    st = U.state()
+    info, old = S.info_record(st)
+    g_old = fresh_ghost(st)
+    n, r1, w1, r2, w2 = z3.Ints('n r1 w1 r2 w2')
+    Ig = VArr((n, 1), None, None, 'i')
+    Ir = VArr((r1, w1), None, None, 'i') if has_r else NONE
+    Ic = VArr((r2, w2), None, None, 'i') if has_c else NONE
+    st.vars.update(f=M.VOpaque('f'), Ig=Ig, Ir=Ir, Ic=Ic, info=info, cache=NONE)
+    pre = [n >= 1, r1 >= 1, r2 >= 1, w1 >= 1, w2 >= 1] + caller_invariant(old, g_old)
+    res = U.run(ex, st, pre=pre)
+    U.cover('precondition-satisfiable', U.pre, axioms=AXF)
+    R1 = r1 if has_r else z3.IntVal(1)
+    R2 = r2 if has_c else z3.IntVal(1)
+    N = T.mulI(T.mulI(R1, n), R2)
+    width = (w1 if has_r else 0) + 1 + (w2 if has_c else 0)
+    for p, o in res:
+        if o.kind != 'return':
+            U.post('no-exception', p, False, axioms=AXF)
+            continue
+        calls = p.ghost.get('eval_calls', [])
+        U.post('exactly-one-evaluation-request', p, z3.BoolVal(len(calls) == 1))
+        if len(calls) != 1:
+            continue
+        I = calls[0]['I']
+        U.post('batch-has-one-row-per-entry-of-the-cross', p, calls[0]['nI'] == N, axioms=AXF)
+        U.post('batch-rows-are-multi-indices-of-width-left+1+right', p,
+               Z(I.shape[1]) == width if isinstance(I, VArr) and I.ndim == 2 else False, axioms=AXF)
+        U.post('batch-is-integer-valued', p, z3.BoolVal(isinstance(I, VArr) and I.dtype == 'i'))
+        refused = p.ghost['last_request']['ret_none']
+        if o.value is NONE:
+            U.post('returns-None-only-when-evaluation-returned-None', p, refused)
+        else:
+            v = p.deref(o.value)
+            ok = isinstance(v, VArr) and v.ndim == 3
+            U.post('returns-block-only-when-evaluation-succeeded', p, z3.Not(refused))
+            U.post('result-is-the-r1-x-n-x-r2-block', p,
+                   z3.And(Z(v.shape[0]) == R1, Z(v.shape[1]) == n, Z(v.shape[2]) == R2) if ok else False, axioms=AXF)
+
+
+for _hr in (False, True):
+    for _hc in (False, True):
+        def _mk(hr=_hr, hc=_hc):
+            @unit(f'cross._func.{"r" if hr else "-"}{"c" if hc else "-"}', props=('C06', 'C05'))
+            def u(U):
+                _func_unit(U, hr, hc)
+        _mk()
+
+
+def call_func(ex, st, args, kwargs, node):
+    """Call-site contract of cross._func(f, Ig, Ir, Ic, info, cache) for the control tier of cross(): the batch has
+    some number N >= 0 of rows; the effect on info and on the objective's log is that of one _func_eval call; the result
+    is None iff the evaluation was refused / failed."""
+    info = st.deref(args[4])
+    cache = st.deref(args[5]) if len(args) > 5 else NONE
+    N = ex.fresh_int('Nbatch')
+    st.assume(N >= 0)
+    ret_none = _havoc_eval(ex, st, info, N, cache is not NONE, node, '_func')
+    return VOpt(ret_none, M.VOpaque('Z'))
+
+
+M.CALLEES['cross._func'] = call_func
+
+
+# ----------------------------------------------------------------------------------------------
+# cross() head: argument validation (C06: "missing stop criteria are rejected with ValueError before any evaluation")
+
+def opt_arr(name):
+    return VOpt(z3.Bool(name + '_none'), M.VOpaque(name))
+
+
+def _is_head_end(stmt):
+    return isinstance(stmt, _ast.Assign) and isinstance(stmt.targets[0], _ast.Name) and stmt.targets[0].id == '_time'
+
+
+@unit('cross.cross.validate', props=('C06',))
+def u_cross_validate(U):
+    fn = U.func('cross', 'cross')
+    # the head ends where the clock is read for the first time
+    if not any(_is_head_end(s_) for s_ in fn.body):
+        raise M.ContractMismatch('cross(): the statement `_time = tpc()` that ends the validation head is gone')
+    ex = U.executor(fn, stop_at=_is_head_end)
+    st = U.state()
+    m, e, nswp, e_vld = S.opt_int('m'), S.opt_real('e'), S.opt_int('nswp'), S.opt_real('e_vld')
+    I_vld, y_vld = opt_arr('I_vld'), opt_arr('y_vld')
+    info = st.alloc(VRec({}))                 # possibly the shared default dict: nothing may be read before the update
+    g_old = fresh_ghost(st)
+    st.vars.update(f=oracle(ex, st), Y0=M.VOpaque('Y0'), m=m, e=e, nswp=nswp, tau=z3.Real('tau'), dr_min=z3.Int('dr_min'),
+                   dr_max=z3.Int('dr_max'), tau0=z3.Real('tau0'), k0=z3.Int('k0'), info=info, cache=NONE, I_vld=I_vld,
+                   y_vld=y_vld, e_vld=e_vld, cb=NONE, func=NONE, m_cache_scale=z3.Real('mcs'), log=False)
+    res = U.run(ex, st)
+    no_vld = z3.Or(I_vld.isnone, y_vld.isnone)
+    bad = z3.Or(z3.And(m.isnone, e.isnone, nswp.isnone, z3.Or(no_vld, e_vld.isnone)), z3.And(z3.Not(e_vld.isnone), no_vld))
+    U.cover('rejecting-reachable', [bad])
+    U.cover('accepting-reachable', [z3.Not(bad)])
+    for p, o in res:
+        if o.kind == 'raise':
+            U.raise_iff('rejects-only-missing-stop-criteria-or-missing-validation-data', p, bad)
+            U.raise_iff('raises-ValueError', p, o.exc == 'ValueError')
+            U.raise_iff('rejected-before-any-evaluation', p, z3.And(p.ghost['ncalls'] == g_old['ncalls'],
+                                                                  z3.BoolVal(len(p.heap[info.oid].fields) == 0)))
+        elif o.kind == 'stop':
+            U.raise_iff('accepts-only-sufficient-stop-criteria', p, z3.Not(bad))
+            U.raise_iff('no-evaluation-during-validation', p, p.ghost['ncalls'] == g_old['ncalls'])
+        else:
+            U.post('head-ends-at-the-clock', p, False)
+    U.canary('canary-never-rejects', [], z3.Not(bad))
